@@ -1027,7 +1027,9 @@ class StubsStringGenerator:
             # Get alias
             alias = None
             for qualified_import in shortest_reexport_module.qualified_imports:
-                if qualified_import.qualified_name.endswith(node.name):
+                # The name has to match as a whole, "FooBar" is not a reexport of "Bar"
+                imported_qname = qualified_import.qualified_name
+                if imported_qname == node.name or imported_qname.endswith(f".{node.name}"):
                     alias = qualified_import.alias
 
             if alias:
